@@ -41,7 +41,7 @@ theorem exPlain_ty : tyOK (.struct exPlain) = true := by
   simp [tyOK, fieldsOK, exPlain, byteArr, isByte, tagAgree_empty, fieldNums, fieldOpt_empty, supportedKind]
 theorem exPlain_codec : fieldsOf 1 exPlain = exPlainC := by
   have hm : (lookupProtobuf "").bind parseStructTag = none := modelTag_empty
-  simp [exPlain, byteArr, exPlainC, fieldsOf, hm, fieldCodecOf, codecOf, isStructBase, baseTy]
+  simp [exPlain, byteArr, exPlainC, fieldsOf, hm, fieldCodecOf, codecOf, isStructBase, embBase, baseTy]
 theorem exPlain_val : hasType (.struct exPlain) (.struct exPlainV) = true := by decide
 theorem exPlain_len : (marshal (.struct exPlain) (.struct exPlainV)).length < 2 ^ 64 := by
   rw [marshal_struct, exPlain_codec]; decide
@@ -85,7 +85,7 @@ theorem exArr_ty : tyOKM (.struct exArr) = true := by
     modelTag_empty, supportedKind, ptrTarget, elemTy, isPtr, isSlice, keyTy]
 theorem exArr_codec : fieldsOf 1 exArr = exArrC := by
   have hm : (lookupProtobuf "").bind parseStructTag = none := modelTag_empty
-  simp [exArr, byteArr, exArrC, codecOf, fieldsOf, hm, fieldCodecOf, isStructBase, baseTy, Codec.wire]
+  simp [exArr, byteArr, exArrC, codecOf, fieldsOf, hm, fieldCodecOf, isStructBase, embBase, baseTy, Codec.wire]
 theorem exArr_val : hasTypeM (.struct exArr) (.struct exArrV) = true := by decide
 theorem exArr_ok : valOKM (.struct exArr) (.struct exArrV) = true := by
   simp [valOKM, valsOKM, valOKMapM, valOKListM, exArr, exArrV, byteArr, Vals.ofList, nonEmptyVals, payloadM, keysDistinct,
@@ -124,7 +124,7 @@ theorem arr2_ty : tyOK (.struct arr2) = true := by
   simp [tyOK, fieldsOK, arr2, byteArr, isByte, tagAgree_empty, fieldNums, fieldOpt_empty]
 theorem arr2_codec : codecOf (.struct arr2) = .struct (.cons 1 false false false (.byteArray 2) .nil) := by
   have hm : (lookupProtobuf "").bind parseStructTag = none := modelTag_empty
-  simp [arr2, byteArr, codecOf, fieldsOf, hm, fieldCodecOf, isStructBase, baseTy]
+  simp [arr2, byteArr, codecOf, fieldsOf, hm, fieldCodecOf, isStructBase, embBase, baseTy]
 
 /-- a non-minimal length token in front of exactly two bytes: the reference accepts, hence so does `Unmarshal`, with the
 same value (instance of `unmarshal_of_decode`) -/
